@@ -66,7 +66,11 @@ TNext ==
             \* the forked case died.  The executor and the programs are in contract, the single-threaded
             \* reference run of the same queries had completed (phase >= 2) and the same programs run to
             \* completion on one thread: only the library under concurrent const queries can be the cause.
-            LET b == IF ln.phase >= 2 /\ ln.seq_replay_ok THEN "C20:CrashUnderConcurrency" ELSE "MACHINERY:crash-single-threaded" IN
+            \* (corrupt_output: the case ended but logged garbage - its heap was overwritten.)  A case stopped by the
+            \* executor's time limit (status 1014 = SIGALRM) is not judged: on a loaded machine that proves nothing.
+            LET b == IF ln.status = 1014 THEN "MACHINERY:case-timeout"
+                     ELSE IF ln.phase >= 2 /\ ln.seq_replay_ok THEN "C20:CrashUnderConcurrency"
+                     ELSE "MACHINERY:crash-single-threaded" IN
             /\ PrintT(<<"VXBAD", l, ln.case, 0, b>>)
             /\ nbad' = nbad + 1
             /\ UNCHANGED <<nchk, ndrift, cur, alph, fresh>>
